@@ -684,7 +684,7 @@ mod v_socket_dns {
         }};
     }
 
-    // @harness props=C19,C03 cfg=KN tier=q to=900 mem=12 unwind=7 opts=nomem kind=finding covers=5 funcs=dns::Socket::accepts;dns::Socket::process;dns::Socket::start_query;wire::dns::Packet::parse_name;wire::dns::Question::parse;wire::dns::Record::parse;wire::dns::RecordData::parse;dns::eq_names;dns::copy_name bounds=query_name_<1>x<1>y_with_symbolic_label_bytes,_type_A_or_AAAA,_txid/port/timers_symbolic;_response_=_byte_template_with_symbolic_id/flags/QDCOUNT/ANCOUNT/NSCOUNT/ARCOUNT,_question_<1>x<1>y_with_symbolic_label_bytes_and_TYPE,_concrete_record_layout_per_arm_with_symbolic_TTL/RDATA;_source_any_IPv4_or_2001:db8::x,_ports_any;_one_A_record_owned_by_pointer_0xc00c
+    // @harness props=C19,C03 cfg=KN tier=q to=900 mem=12 unwind=7 opts=nomem covers=5 funcs=dns::Socket::accepts;dns::Socket::process;dns::Socket::start_query;wire::dns::Packet::parse_name;wire::dns::Question::parse;wire::dns::Record::parse;wire::dns::RecordData::parse;dns::eq_names;dns::copy_name bounds=query_name_<1>x<1>y_with_symbolic_label_bytes,_type_A_or_AAAA,_txid/port/timers_symbolic;_response_=_byte_template_with_symbolic_id/flags/QDCOUNT/ANCOUNT/NSCOUNT/ARCOUNT,_question_<1>x<1>y_with_symbolic_label_bytes_and_TYPE,_concrete_record_layout_per_arm_with_symbolic_TTL/RDATA;_source_any_IPv4_or_2001:db8::x,_ports_any;_one_A_record_owned_by_pointer_0xc00c
     #[kani::proof]
     pub(crate) fn dns_process_ptrq_a() {
         let o = process_form(Form { complete: true, check_type: true, ..F_ONE });
@@ -695,7 +695,7 @@ mod v_socket_dns {
         kani::cover!(o.failed && o.rcode == 0 && o.an == 0, "answerless response failed the query");
     }
 
-    // @harness props=C19,C03 cfg=KN tier=q to=900 mem=12 unwind=7 opts=nomem kind=finding covers=2 funcs=dns::Socket::accepts;dns::Socket::process;dns::Socket::start_query;wire::dns::Packet::parse_name;wire::dns::Question::parse;wire::dns::Record::parse;wire::dns::RecordData::parse;dns::eq_names;dns::copy_name bounds=query_name_<1>x<1>y_with_symbolic_label_bytes,_type_A_or_AAAA,_txid/port/timers_symbolic;_response_=_byte_template_with_symbolic_id/flags/QDCOUNT/ANCOUNT/NSCOUNT/ARCOUNT,_question_<1>x<1>y_with_symbolic_label_bytes_and_TYPE,_concrete_record_layout_per_arm_with_symbolic_TTL/RDATA;_source_any_IPv4_or_2001:db8::x,_ports_any;_one_AAAA_record_owned_by_pointer_0xc00c
+    // @harness props=C19,C03 cfg=KN tier=q to=900 mem=12 unwind=7 opts=nomem covers=2 funcs=dns::Socket::accepts;dns::Socket::process;dns::Socket::start_query;wire::dns::Packet::parse_name;wire::dns::Question::parse;wire::dns::Record::parse;wire::dns::RecordData::parse;dns::eq_names;dns::copy_name bounds=query_name_<1>x<1>y_with_symbolic_label_bytes,_type_A_or_AAAA,_txid/port/timers_symbolic;_response_=_byte_template_with_symbolic_id/flags/QDCOUNT/ANCOUNT/NSCOUNT/ARCOUNT,_question_<1>x<1>y_with_symbolic_label_bytes_and_TYPE,_concrete_record_layout_per_arm_with_symbolic_TTL/RDATA;_source_any_IPv4_or_2001:db8::x,_ports_any;_one_AAAA_record_owned_by_pointer_0xc00c
     #[kani::proof]
     pub(crate) fn dns_process_ptrq_aaaa() {
         let o = process_form(Form { rd: [Rd::Aaaa, Rd::A], complete: true, check_type: true, ..F_ONE });
@@ -703,7 +703,7 @@ mod v_socket_dns {
         kani::cover!(o.acc && o.id_ok && o.port_ok && o.qr && !o.question_ok && !o.completed && !o.failed, "response rejected: other question");
     }
 
-    // @harness props=C19,C03 cfg=KN tier=q to=900 mem=16 unwind=7 opts=nomem kind=finding covers=2 funcs=dns::Socket::accepts;dns::Socket::process;dns::Socket::start_query;wire::dns::Packet::parse_name;wire::dns::Question::parse;wire::dns::Record::parse;wire::dns::RecordData::parse;dns::eq_names;dns::copy_name bounds=query_name_<1>x<1>y_with_symbolic_label_bytes,_type_A_or_AAAA,_txid/port/timers_symbolic;_response_=_byte_template_with_symbolic_id/flags/QDCOUNT/ANCOUNT/NSCOUNT/ARCOUNT,_question_<1>x<1>y_with_symbolic_label_bytes_and_TYPE,_concrete_record_layout_per_arm_with_symbolic_TTL/RDATA;_source_any_IPv4_or_2001:db8::x,_ports_any;_the_single_answer_record_(owner_0xc00c)_is_a_CNAME_with_RDATA_<1>x+pointer_to_the_question's_last_label
+    // @harness props=C19,C03 cfg=KN tier=q to=900 mem=16 unwind=7 opts=nomem covers=2 funcs=dns::Socket::accepts;dns::Socket::process;dns::Socket::start_query;wire::dns::Packet::parse_name;wire::dns::Question::parse;wire::dns::Record::parse;wire::dns::RecordData::parse;dns::eq_names;dns::copy_name bounds=query_name_<1>x<1>y_with_symbolic_label_bytes,_type_A_or_AAAA,_txid/port/timers_symbolic;_response_=_byte_template_with_symbolic_id/flags/QDCOUNT/ANCOUNT/NSCOUNT/ARCOUNT,_question_<1>x<1>y_with_symbolic_label_bytes_and_TYPE,_concrete_record_layout_per_arm_with_symbolic_TTL/RDATA;_source_any_IPv4_or_2001:db8::x,_ports_any;_the_single_answer_record_(owner_0xc00c)_is_a_CNAME_with_RDATA_<1>x+pointer_to_the_question's_last_label
     #[kani::proof]
     pub(crate) fn dns_process_cname_only() {
         let o = process_form(Form { rd: [Rd::CnameLabelPtr(QSUF_OFF), Rd::A], ..F_ONE });
@@ -814,7 +814,7 @@ mod v_socket_dns {
         kani::cover!(o.completed && o.cname_followed, "CNAME to a three-label name followed");
     }
 
-    // @harness props=C19,C03,C07 cfg=KN tier=q to=900 mem=16 unwind=7 opts=nomem kind=finding covers=1 funcs=dns::Socket::accepts;dns::Socket::process;dns::Socket::start_query;wire::dns::Packet::parse_name;wire::dns::Question::parse;wire::dns::Record::parse;wire::dns::RecordData::parse;dns::eq_names;dns::copy_name bounds=query_name_<1>x<1>y_with_symbolic_label_bytes,_type_A_or_AAAA,_txid/port/timers_symbolic;_response_=_byte_template_with_symbolic_id/flags/QDCOUNT/ANCOUNT/NSCOUNT/ARCOUNT,_question_<1>x<1>y_with_symbolic_label_bytes_and_TYPE,_concrete_record_layout_per_arm_with_symbolic_TTL/RDATA;_source_any_IPv4_or_2001:db8::x,_ports_any;_CNAME_owned_by_0xc00c_with_RDATA_<1>x+pointer_to_itself_then_an_A_record_owned_by_a_pointer_to_that_RDATA
+    // @harness props=C19,C03,C07 cfg=KN tier=q to=900 mem=16 unwind=7 opts=nomem covers=1 funcs=dns::Socket::accepts;dns::Socket::process;dns::Socket::start_query;wire::dns::Packet::parse_name;wire::dns::Question::parse;wire::dns::Record::parse;wire::dns::RecordData::parse;dns::eq_names;dns::copy_name bounds=query_name_<1>x<1>y_with_symbolic_label_bytes,_type_A_or_AAAA,_txid/port/timers_symbolic;_response_=_byte_template_with_symbolic_id/flags/QDCOUNT/ANCOUNT/NSCOUNT/ARCOUNT,_question_<1>x<1>y_with_symbolic_label_bytes_and_TYPE,_concrete_record_layout_per_arm_with_symbolic_TTL/RDATA;_source_any_IPv4_or_2001:db8::x,_ports_any;_CNAME_owned_by_0xc00c_with_RDATA_<1>x+pointer_to_itself_then_an_A_record_owned_by_a_pointer_to_that_RDATA
     #[kani::proof]
     pub(crate) fn dns_process_cname_loop() {
         let o = process_form(Form { o: [Owner::Ptr(QN_OFF), Owner::Ptr(RD1)], rd: [Rd::CnameLabelPtr(SELF), Rd::A], ..F_TWO });
@@ -1289,7 +1289,7 @@ mod v_socket_dns {
         kani::cover!(e.seen && !emit_ok, "device refused the packet");
     }
 
-    // @harness props=C19,C13 cfg=KN tier=q to=900 mem=6 unwind=7 opts=nomem kind=finding covers=4 funcs=dns::Socket::poll_at;dns::Socket::dispatch bounds=pre-states_of_dns_dispatch_step;_probe_instant_anywhere_relative_to_poll_at
+    // @harness props=C19,C13 cfg=KN tier=q to=900 mem=6 unwind=7 opts=nomem covers=4 funcs=dns::Socket::poll_at;dns::Socket::dispatch bounds=pre-states_of_dns_dispatch_step;_probe_instant_anywhere_relative_to_poll_at
     #[kani::proof]
     pub(crate) fn dns_poll_at_step() {
         dns_env!(dev, iface, cx, now);
